@@ -82,7 +82,8 @@ _TAGGED = []
 
 
 def _tagged_class():
-    """a Parameter subclass with a list-valued slot that its __getstate__ blanks (as Path does with search_paths)"""
+    """a Parameter subclass whose __getstate__ blanks a list-valued slot (as Path does with search_paths) and a scalar one
+    (`precedence`): copies of the Parameter made through copy.copy must take both from the original again"""
     import param
     if not _TAGGED:
         class Tagged(param.Parameter):
@@ -97,6 +98,8 @@ def _tagged_class():
                 state = super().__getstate__()
                 if 'tags' in state:
                     state['tags'] = []          # "don't want to pickle the tags"
+                if 'precedence' in state:
+                    state['precedence'] = None  # a scalar slot blanked as well
                 return state
         _TAGGED.append(Tagged)
     return _TAGGED[0]
@@ -482,6 +485,9 @@ def directed():
     # a Parameter subclass whose __getstate__ blanks a slot: per-instance and subclass copies still hold the class's value
     yield [mkClass([], [D(0, 'plain', 5, tags=[1, 2]), D(1, 'plain', [3], inst=True, tags=[4])]), mkClass([0], []), mkInst(0), mkInst(1),
            acc(0, 0), setV(I(1), 1, 7), setV(C(1), 0, 6), acc(1, 0), setV(C(0), 0, 8), mkInst(1), acc(2, 1)]
+    # … and its scalar attributes (precedence, also blanked by that __getstate__)
+    yield [mkClass([], [D(0, 'plain', 5, tags=[1, 2]), D(1, 'plain', [3], inst=True, tags=[4])]), mkClass([0], []), sset(C(0), 0, precedence=3),
+           sset(C(0), 1, precedence=4), mkInst(0), mkInst(1), acc(0, 0), setV(I(1), 1, 7), setV(C(1), 0, 6), acc(1, 0), sset(I(0), 1, constant=True), acc(1, 1)]
     # class-level writes on a subclass stay on the subclass: in-place changes of its Parameter's containers do not reach the parent
     yield BASE + [setV(C(1), 1, 2), smut(C(1), 1, objectsAppend=9), smut(C(1), 1, namesInsert=9), smut(C(0), 1, objectsAppend=8),
                   setV(C(1), 0, 3), smut(C(1), 0, boundsSetHi=50), setV(C(0), 0, 40), setV(C(1), 0, 40), mkInst(1), mkInst(0), acc(0, 1), acc(1, 0)]
